@@ -8,7 +8,10 @@ CHECK = {
             "x a pair (f1, f2) of sync functions from a family over body fields (channel from a / b / both / constant / none; access() to user or role from up to two field pairs; "
             "role(); rejection by throw before or after the grant calls; a deletion clause granting from oldDoc), f2 derived from f1 by 1-3 edits (channel move, grant added / "
             "removed / moved, rejection added), unrelated, or identical, x regenerate_sequences on/off, x seeded admin grants of 4 users (one holds *) and 2 roles. "
-            "distinct_nontrivial = distinct (shapes, bodies, f1, f2, option) whose first resync changed >= 1 document and f1 != f2. 40 cases quick, 600 thorough.",
+            "distinct_nontrivial = distinct (shapes, bodies, f1, f2, option) whose first resync changed >= 1 document and f1 != f2. 40 generated cases quick, 600 thorough, "
+            "plus 6 fixed minimal histories (the shortest history of each input class resync was found to mishandle, and two controls). The reference for a single leaf is "
+            "the new function evaluated on that revision's body alone (written as a document of its own in the fresh database); the reference for principals and visibility "
+            "is the fresh database.",
     "parts": [
         {"name": "resync", "pkg": "rest", "run": "^TestVerif_C18_Resync$", "race": False, "timeout_q": 900, "timeout_t": 3300, "env": _ENV},
     ],
@@ -26,6 +29,8 @@ CHECK = {
         "resync.live_documents_changed_by_resync": 40,
         "resync.tombstones_seen": 30,
         "resync.writes_refused_while_offline": 35,
+        "resync.leaves_rejected_by_f2_compared": 15,
+        "resync.fixed_histories_run": 6,
     },
     "assumptions": [
         "sync functions read body fields only (never stored state), so 'from scratch' is defined per revision; f1 never rejects",
@@ -33,7 +38,9 @@ CHECK = {
         "runs f2 with the rejection replaced by 'return before any channel/access/role call' so that both databases hold identical revision trees",
         "writes racing the resync are out of reach: POST /{db}/_resync requires an offline database and an offline / resyncing database refuses document writes (503, counted per case)",
         "single node, non-distributed resync over the rosmar DCP feed; one collection",
-        "tombstoned documents and tombstoned branches: own channel maps compared as diagnostics only",
+        "tombstoned documents and tombstoned branches: own channel maps compared as diagnostics only; the grants a tombstone keeps are judged through the users' effective access",
+        "a conflicting leaf that once was the winner has no channel record in the fresh database (normal write path, not resync): such leaves are judged against the function "
+        "evaluated on the revision alone, and GET ?rev= of them is not compared (counted)",
     ],
 }
 
